@@ -377,6 +377,11 @@ def run_shard(spec, res):
                     if s < 2 and kind in ('local', 'reshuffle', 'once'):
                         for path in COPYING:
                             check_single(ld, kind, n, b, spec['rng'], base + s, res, path)
+        # sizes around 2^8 and 2^16 (index arrays of another width)
+        for n in (255, 256, 257, 1000) + ((65537,) if spec['rng'] == 'RandomState' else ()):
+            for b in ((3, 100, n + 1) if kind == 'local' else (None,)):
+                check_single(ld, kind, n, b, spec['rng'], base + n, res)
+                res.count('large_shuffles_checked')
         res.sample({'shuffle': kind, 'rng': spec['rng'], 'n': 6, 'b': 3,
                     'epochs': [list(shuffled(ld, kind, 6, 3, spec['rng'], base))
                                for _ in range(1)]})
